@@ -16,9 +16,9 @@ variable {U : Type}
 inductive CtlClass
   | const    -- select / rank / utility          (const Control&)
   | plan     -- enter / reenter / exit           (PlanControl&)
-  | full     -- pre/-/postUpdate, plan callbacks (FullControl&)
+  | full     -- pre·/·/postUpdate, plan callbacks (FullControl&)
   | guard    -- entry / exit guards              (GuardControl&)
-  | event    -- pre/-/postReact                  (EventControl&)
+  | event    -- pre·/·/postReact                  (EventControl&)
   | query    -- query                            (ConstControl&)
   deriving DecidableEq, Repr
 
